@@ -43,10 +43,11 @@ def od_factory():
 
 
 KINDS = {
-    "exp_dl": [1, 2, 4], "seg_dl": [0, 3, 5, 7, 8, 14, 15], "exp_ul": [1, 3, 4], "seg_ul": [5, 7, 8, 14, 15, 22],
+    "exp_dl": [1, 2, 4], "seg_dl": [0, 3, 5, 7, 8, 14, 15], "seg_dl_nosize": [0, 6, 7, 15], "exp_ul": [1, 3, 4], "seg_ul": [5, 7, 8, 14, 15, 22],
     "blk_dl": [5, 7, 8, 36, 50, 100], "blk_ul": [5, 7, 8, 36, 50, 100],
 }
 KINDS_T = {
+    "seg_dl_nosize": [0, 1, 6, 7, 8, 14, 15, 22],
     "exp_dl": [1, 2, 3, 4], "seg_dl": [0, 1, 4, 5, 6, 7, 8, 13, 14, 15, 21, 22, 50], "exp_ul": [1, 2, 3, 4],
     "seg_ul": [5, 6, 7, 8, 13, 14, 15, 21, 22, 50], "blk_dl": [1, 5, 7, 8, 14, 35, 36, 50, 100, 250], "blk_ul": [1, 5, 7, 8, 14, 35, 36, 50, 100, 250],
 }
@@ -105,6 +106,11 @@ def do_transfer(rig, kind, mux, data):
     if kind in ("exp_dl", "seg_dl"):
         sdo.download(mux[0], mux[1], data, force_segment=(kind == "seg_dl"))
         return None
+    if kind == "seg_dl_nosize":
+        # size not declared: the transfer ends with an empty "no more data" segment sent by close()
+        with sdo.open(mux[0], mux[1], "wb", size=None) as fp:
+            fp.write(data)
+        return None
     if kind in ("exp_ul", "seg_ul"):
         return sdo.upload(mux[0], mux[1])
     if kind == "blk_dl":
@@ -152,7 +158,7 @@ def stale_frames(kind, mux):
         out["stale-download-ack"] = struct.pack("<BHB4x", 0x60, other[0], other[1])
     if kind not in ("seg_ul",):
         out["stale-upload-segment"] = bytes([0x00]) + b"STALE!!"
-    if kind in ("exp_dl", "seg_dl", "blk_dl"):
+    if kind in ("exp_dl", "seg_dl", "seg_dl_nosize", "blk_dl"):
         out["stale-block-upload-init"] = struct.pack("<BHBL", 0xC6, other[0], other[1], 3)
     return out
 
@@ -202,6 +208,10 @@ def run_case(ctx, c):
             return [frame.replace(data=bytes(d))]
         if dist == "duplicated":
             return [frame, frame.replace()]
+        if dist.startswith("stale-between:wrong-toggle"):
+            expected_toggle = (k - 1) % 2
+            b0 = ((1 - expected_toggle) << 4) | (0x01 if "last" in dist else 0x00) | (2 << 1)
+            return [frame.replace(data=bytes([b0]) + b"OLD!!\x00\x00"), frame]
         if dist.startswith("stale-between:"):
             st = stale_frames(kind, mux)[dist.split(":", 1)[1]]
             return [frame.replace(data=st), frame]
@@ -211,7 +221,14 @@ def run_case(ctx, c):
             return [frame, frame.replace(data=st)]
         raise AssertionError(dist)
 
-    if dist.startswith("stale-before:"):
+    genuine_refusal = (dist.startswith("abort:") and rig.peer == "ref" and not upload
+                       and (c["stepclass"] == "last" or kind == "exp_dl"))
+    if genuine_refusal:
+        # the server itself refuses at commit time (nothing is stored), instead of a response swapped on the wire
+        code_ = int(dist.split(":")[1], 16)
+        rig.server.refuse = lambda what, m, d: code_ if what == "download" else None
+        fired = True
+    elif dist.startswith("stale-before:"):
         # in the queue before the first request of the transfer
         st = stale_frames(kind, mux)[dist.split(":", 1)[1]]
         rig.bus.inject(rig.tx, st, src=rig.server_name)
@@ -223,7 +240,9 @@ def run_case(ctx, c):
         got = do_transfer(rig, kind, mux, data)
     except Exception as e:  # noqa: BLE001
         exc = e
-    if not dist.startswith("stale-before:"):
+    if genuine_refusal:
+        rig.server.refuse = None
+    elif not dist.startswith("stale-before:"):
         fired = rig.bus.fault.fired
     rig.bus.fault = None
     trace = rig.wire(50)
@@ -260,6 +279,11 @@ def run_case(ctx, c):
             accepted = {TIMEOUT_CODE}
             if c["stepclass"] in ("blk-segment", "blk-ack") or (kind == "blk_ul" and c["stepclass"] == "last"):
                 accepted = {TIMEOUT_CODE, 0x05040003, 0x05040004}
+            if aborts:
+                later = [f for f in rig.bus.log if f.src == "master" and f.can_id == rig.rx and f.ts > aborts[0].ts]
+                if later:
+                    ctx.violation(f"client-continues-after-its-abort:{kind}",
+                                  f"after aborting the timed-out transfer the client still sent {[f.data.hex() for f in later]}", c, trace)
             if not aborts:
                 ctx.violation(f"no-abort-after-lost-response:{kind}:{c['stepclass']}",
                               f"{kind}: response {k} ({c['stepclass']}) lost, call raised {exc!r}, but the client sent no abort frame", c, trace)
@@ -277,11 +301,23 @@ def run_case(ctx, c):
     set_server_value(rig, FU_UP, fu_val)
     fu_data = payload(9, c["seed"] + 2)
     mark = len(rig.bus.log)
-    for name, fn in (("upload", lambda: rig.sdo.upload(*FU_UP)),
-                     ("download", lambda: rig.sdo.download(VAL_OBJ[0], VAL_OBJ[1], fu_data))):
+    poll_val = payload(n if n else 3, c["seed"] + 3)
+    steps = [("upload", lambda: rig.sdo.upload(*FU_UP)),
+             ("download", lambda: rig.sdo.download(VAL_OBJ[0], VAL_OBJ[1], fu_data))]
+    if c["seed"] % 2:
+        steps.reverse()                      # an upload in between can hide state left behind in the server
+    if upload:
+        # poll the same object again after the server's value changed: a stale answer would go unnoticed otherwise
+        set_server_value(rig, mux, poll_val)
+        steps.insert(0, ("poll-same-object", lambda: rig.sdo.upload(mux[0], mux[1])))
+    for name, fn in steps:
         ctx.count("followups")
         try:
             res = fn()
+            if name == "poll-same-object" and res != poll_val:
+                ctx.violation(f"followup-stale-data:{kind}:{dist.split(':')[0]}",
+                              f"polling the same object after ({kind}, {dist}@{k}, outcome {outcome}) returned {res!r}, the server now holds {poll_val!r}",
+                              c, [x.brief() for x in list(rig.bus.log)[max(0, mark - 12):][:50]])
             if name == "upload" and res != fu_val:
                 ctx.violation(f"followup-wrong-data:{name}:{kind}:{dist.split(':')[0]}",
                               f"follow-up upload after ({kind}, {dist}@{k}, outcome {outcome}) returned {res!r} expected {fu_val!r}",
@@ -324,10 +360,13 @@ def enumerate_cases(desc_run, cs):
         if sc != "blk-segment":
             for other in rng.sample([x for x in range(8) if x not in (scs, 4)], 3):
                 dists.append(f"specifier:{other}")
-        if scs in (0, 1) and sc != "blk-segment" and kind in ("seg_dl", "seg_ul", "exp_ul") and k > 0:
+        if scs in (0, 1) and sc != "blk-segment" and kind in ("seg_dl", "seg_dl_nosize", "seg_ul", "exp_ul") and k > 0:
             dists.append("toggle")
         if k == 0:
             dists += ["mux-index", "mux-sub"]
+        if kind == "seg_ul" and k >= 1:
+            # a late segment of an earlier upload: wrong toggle for this step, so the protocol can tell it apart
+            dists += ["stale-between:wrong-toggle-last-segment", "stale-between:wrong-toggle-segment"]
         for name in stale_frames(kind, mux):
             dists.append("stale-between:" + name)
             if k < nresp - 1:
